@@ -1,5 +1,5 @@
 #!/bin/bash
-# usage: run_harmless.sh <n>   -- runs every quick check against /repo + harmless/<n>.diff (scratch copies)
+# usage: [HL_PROPS="C02 C17"] run_harmless.sh <n>   -- runs every quick check against /repo + harmless/<n>.diff (scratch copies)
 n=$1; S=/tmp/hl_$n; rm -rf $S; mkdir -p $S
 git -C /repo worktree add -q --detach $S/repo HEAD || exit 2
 git -C $S/repo apply /verif/harmless/$n.diff || { echo "harmless $n: patch does not apply"; git -C /repo worktree remove --force $S/repo; exit 2; }
@@ -7,7 +7,7 @@ rsync -a --exclude .git --exclude out --exclude evidence --exclude seeded /verif
 sed -i "s#=> /repo#=> $S/repo#" $S/verif/go/go.mod
 rm -f $S/verif/go/bin/harness $S/verif/go/bin/harness.fp
 res=""
-for p in C01 C02 C03 C04 C05 C06 C07 C08 C09 C10 C11 C12 C13 C14 C15 C16 C17 C18 C19; do
+for p in ${HL_PROPS:-C01 C02 C03 C04 C05 C06 C07 C08 C09 C10 C11 C12 C13 C14 C15 C16 C17 C18 C19}; do
   (cd $S/verif && VERIF_REPO=$S/repo timeout 3000 ./check $p quick > $S/$p.out 2>&1); rc=$?
   if [ $rc -ne 0 ]; then res="$res $p[$(grep -m1 '^# ' $S/$p.out | cut -c1-160)]"; fi
 done
